@@ -386,7 +386,9 @@ fn check_faulted(
             faulted.log.iter().any(|e| e.answer.starts_with(prefix.as_str()))
           };
           // (or the restarted pass no longer contains the file at all)
-          let is_module = matches!(g.try_get(&url(&k.specifier)), Ok(Some(m)) if m.specifier().as_str() == url(&k.specifier).as_str());
+          // (an *external* entry under that name comes from another fault of the plan that names the file as
+          // the target of an external answer, not from the content load)
+          let is_module = matches!(g.try_get(&url(&k.specifier)), Ok(Some(m)) if m.specifier().as_str() == url(&k.specifier).as_str() && !matches!(m, deno_graph::Module::External(_)));
           let _ = is_err;
           if is_module && !served_later {
             acc.violation(
@@ -474,11 +476,20 @@ fn check_faulted(
   let roots: BTreeSet<String> = g.roots.iter().map(|r| r.to_string()).collect();
   let root_reachable_by_redirect: BTreeSet<String> = {
     let mut s = roots.clone();
+    // the redirect table keeps the first answer per specifier; with a fault on one occurrence the loader may
+    // have answered the same specifier with two different redirects, so the hops the loader really answered
+    // (from the log) count as well
+    let mut edges: Vec<(String, String)> = g.redirects.iter().map(|(a, b)| (a.to_string(), b.to_string())).collect();
+    for e in &faulted.log {
+      if let Some(t) = e.answer.strip_prefix("redirect:") {
+        edges.push((e.specifier.clone(), t.to_string()));
+      }
+    }
     let mut changed = true;
     while changed {
       changed = false;
-      for (a, b) in &g.redirects {
-        if s.contains(a.as_str()) && s.insert(b.to_string()) {
+      for (a, b) in &edges {
+        if s.contains(a.as_str()) && s.insert(b.clone()) {
           changed = true;
         }
       }
@@ -534,7 +545,7 @@ fn check_faulted(
         acc.violation(
           format!("error-entry-without-referrer/{}", class),
           format!("{}: {}", spec, msg.lines().next().unwrap_or("")),
-          w(json!({})),
+          w(json!({"graph": graph_json(g), "faulted_log": faulted.log.iter().map(|e| format!("{} {} -> {}", e.cache_setting, e.specifier, e.answer.chars().take(70).collect::<String>())).collect::<Vec<_>>()})),
         );
       }
     }
